@@ -501,6 +501,55 @@ func C16(c *core.Ctx) {
 	}
 	c.Decide(orderBad == "", "R16.3", "lock-order-rib-before-fib", "-", "FIB code never calls into the RIB (lock order RIB → FIB only)", "FIB code calls into the RIB at "+orderBad+" (RIB code calls the FIB while holding the RIB lock: opposite orders can deadlock)")
 	_ = token.ADD
+
+	// ---- R16.4 a RIB change reaches the FIB as ONE update of the affected entry: a lookup
+	// that overlaps it sees the old or the new next-hop set, never the empty or half-filled
+	// one. The refresh of an entry must not be a ClearNextHopsEnc followed by separate
+	// InsertNextHopEnc calls (each takes and releases the FIB lock on its own).
+	{
+		nRefresh := 0
+		tornAt, tornFn := "", ""
+		var nCl, nIns int
+		for _, fn := range p.FuncsIn(pkg) {
+			if strings.HasSuffix(p.File(fn.Pos()), "_test.go") || core.FuncID(core.RootOf(fn)).Recv != "RibEntry" || fn.Parent() != nil {
+				continue
+			}
+			var clears, inserts []ssa.Instruction
+			core.InstrsDeep(fn, func(in ssa.Instruction) {
+				ci, ok := in.(ssa.CallInstruction)
+				if !ok {
+					return
+				}
+				id, ok := core.Callee(ci.Common())
+				if !ok || id.Recv != "FibStrategy" {
+					return
+				}
+				switch id.Name {
+				case "ClearNextHopsEnc":
+					clears = append(clears, in)
+				case "InsertNextHopEnc":
+					inserts = append(inserts, in)
+				}
+			})
+			if len(clears) == 0 || len(inserts) == 0 {
+				continue
+			}
+			nRefresh++
+			nCl += len(clears)
+			nIns += len(inserts)
+			for _, cl := range clears {
+				for _, ins := range inserts {
+					if core.ReachableAfterDeep(fn, cl, ins) {
+						tornAt, tornFn = c.Pos(cl), core.FuncName(fn)
+					}
+				}
+			}
+		}
+		c.Decide(tornAt == "", "R16.4", "rib-refresh-is-one-fib-update", tornAt, "the FIB entry is not emptied and refilled in separate critical sections", tornFn+" empties the FIB entry with ClearNextHopsEnc and then re-inserts the next hops one by one, each call taking the FIB lock on its own: a forwarding-thread lookup between two of them sees an empty or partially filled next-hop list and falls through to a shorter prefix (also past a capture route) — on every route change, even a re-registration of an identical route")
+		_ = nRefresh
+		c.Extra["rib_refresh_fib_calls"] = nCl + nIns
+	}
+
 }
 
 // isFreshObject: the object is allocated in the current function (new / composite literal).
